@@ -221,6 +221,38 @@ func (s *execState) ev(kind string, i int) {
 	s.mu.Unlock()
 }
 
+// the retry option's user functions (installed on the request or, as common options, on the client)
+func (s *execState) intervalFunc() req.GetRetryIntervalFunc {
+	return func(resp *req.Response, attempt int) time.Duration {
+		if a := attempt - 1; a >= 0 && a < len(s.p.Attempts) && s.p.Attempts[a].SleepCancel {
+			s.sleepCut = true
+			s.cancel()
+			return 30 * time.Second
+		}
+		return 0
+	}
+}
+
+func (s *execState) hookFunc(i int) req.RetryHookFunc {
+	return func(resp *req.Response, err error) {
+		// hooks run after RetryAttempt++ but belong to the iteration that decided to retry
+		a := 0
+		if s.rq != nil {
+			a = s.rq.RetryAttempt - 1
+		}
+		s.mu.Lock()
+		s.log = append(s.log, logEv{Kind: "hook", I: i, Attempt: a})
+		s.mu.Unlock()
+	}
+}
+
+func (s *execState) condFunc(i int) req.RetryConditionFunc {
+	return func(resp *req.Response, err error) bool {
+		s.ev("cond", i)
+		return s.p.Attempts[s.attempt()].Conds[i]
+	}
+}
+
 const goodChallenge = `Digest realm="c18", nonce="dcd98b7102dd2f0e8b11d0f600bfb0c093", qop="auth", algorithm=MD5`
 
 func buildHTTPResponse(t toutSpec, hr *http.Request, p *progSpec) *http.Response {
@@ -560,6 +592,16 @@ func execute(p *progSpec, origin *realOrigin) (o obsT, res *okT, er *errT) {
 	})
 
 	pkg := strings.HasPrefix(p.Entry, "pkg.")
+	if p.Retry && p.RetryLevel == "client" { // the client's common retry options: copied into every request R() makes
+		c.SetCommonRetryCount(p.Max)
+		c.SetCommonRetryInterval(st.intervalFunc())
+		for i := 0; i < p.NHooks; i++ {
+			c.AddCommonRetryHook(st.hookFunc(i))
+		}
+		for i := 0; i < p.NConds; i++ {
+			c.AddCommonRetryCondition(st.condFunc(i))
+		}
+	}
 	rq := c.R()
 	if pkg {
 		// the function creates its own request: it is captured by a silent first request middleware
@@ -623,31 +665,14 @@ func execute(p *progSpec, origin *realOrigin) (o obsT, res *okT, er *errT) {
 	if !pkg {
 		rq.SetContext(ctx)
 	}
-	if p.Retry {
+	if p.Retry && p.RetryLevel != "client" {
 		rq.SetRetryCount(p.Max)
-		rq.SetRetryInterval(func(resp *req.Response, attempt int) time.Duration {
-			if a := attempt - 1; a >= 0 && a < len(p.Attempts) && p.Attempts[a].SleepCancel {
-				st.sleepCut = true
-				cancel()
-				return 30 * time.Second
-			}
-			return 0
-		})
+		rq.SetRetryInterval(st.intervalFunc())
 		for i := 0; i < p.NHooks; i++ {
-			i := i
-			rq.AddRetryHook(func(resp *req.Response, err error) {
-				// hooks run after RetryAttempt++ but belong to the iteration that decided to retry
-				st.mu.Lock()
-				st.log = append(st.log, logEv{Kind: "hook", I: i, Attempt: rq.RetryAttempt - 1})
-				st.mu.Unlock()
-			})
+			rq.AddRetryHook(st.hookFunc(i))
 		}
 		for i := 0; i < p.NConds; i++ {
-			i := i
-			rq.AddRetryCondition(func(resp *req.Response, err error) bool {
-				st.ev("cond", i)
-				return p.Attempts[st.attempt()].Conds[i]
-			})
+			rq.AddRetryCondition(st.condFunc(i))
 		}
 	}
 	url := "http://c18.test/x"
@@ -719,6 +744,9 @@ func execute(p *progSpec, origin *realOrigin) (o obsT, res *okT, er *errT) {
 	}
 	if pkg {
 		o.Iters = 1
+		if st.rq != nil {
+			o.Iters = st.rq.RetryAttempt + 1
+		}
 	} else if p.ReqErr == 0 {
 		o.Iters = rq.RetryAttempt + 1
 		if st.sleepCut { // RetryAttempt was incremented, the next iteration never started
